@@ -1233,3 +1233,37 @@ func (ly *Layout) ApplyAlt(a Alt) {
 		}
 	}
 }
+
+// NikonMakerNote builds a Nikon type-3 maker note: "Nikon\0", version, and a TIFF block of its
+// own (with its own byte-order mark, independent of the file's) holding one small directory.
+// As an UNDEFINED blob its bytes are the same in the II and MM encodings of a record.
+func NikonMakerNote(innerBig bool, f *core.SplitMix) []byte {
+	var bo binary.ByteOrder = binary.LittleEndian
+	out := []byte("Nikon\x00\x02\x10\x00\x00")
+	if innerBig {
+		bo = binary.BigEndian
+		out = append(out, "MM\x00*"...)
+	} else {
+		out = append(out, "II*\x00"...)
+	}
+	var b4 [4]byte
+	bo.PutUint32(b4[:], 8)
+	out = append(out, b4[:]...)
+	// directory: 2 entries (embedded values), next = 0
+	var b2 [2]byte
+	bo.PutUint16(b2[:], 2)
+	out = append(out, b2[:]...)
+	for i := 0; i < 2; i++ {
+		var e [12]byte
+		bo.PutUint16(e[0:], uint16(1+i))
+		bo.PutUint16(e[2:], TShort)
+		bo.PutUint32(e[4:], 1)
+		bo.PutUint16(e[8:], uint16(f.Intn(1000)))
+		out = append(out, e[:]...)
+	}
+	out = append(out, 0, 0, 0, 0)
+	for i := f.Intn(40); i > 0; i-- {
+		out = append(out, byte(f.Next()))
+	}
+	return out
+}
